@@ -90,7 +90,12 @@ WORLD["C01"] = dict(nv=(3, 10), ns=(2, 4), nb=(1, 3), nr=(5, 40), nsteps=(40, 16
 def make_plan(prop, seed):
     """the world and the run-level switches of one run (no operations yet: those are chosen online)"""
     wr = stream(seed, "world")
-    spec = gen_world(wr, WORLD[prop])
+    prof = WORLD[prop]
+    if prop == "C16" and stream(seed, "variant").random() < 0.35:
+        # a charging-heavy world (busy plugs, queues, low batteries) in which the built-in charging manager has rankings to compute:
+        # that is where memo tables and other state outside the SimulationState would live
+        prof = dict(WORLD["C18"], nsteps=(15, 45), ns=(2, 3), search_types=["shortest_time_to_charge"] * 4 + ["nearest_shortest_queue"])
+    spec = gen_world(wr, prof)
     r = stream(seed, "run")
     rs = {"generators": None, "lazy": False, "log_events": False, "buggify": False, "recorder": False, "p_ext": 0.0}
     adv = {"p_instr": r.choice([0.1, 0.3, 0.6]), "p_hostile": r.choice([0.1, 0.3, 0.6]), "p_oos": 0.3}
@@ -153,6 +158,10 @@ def make_plan(prop, seed):
             spec["dispatcher"]["valid_dispatch_states"] = r.choice([["idle", "repositioning", "reservebase"], ["idle"], ["idle", "repositioning", "dispatchbase"],
                                                               ["idle", "repositioning", "reservebase", "chargingbase"], ["idle", "chargingbase", "chargingstation"]])
     elif prop == "C16":
+        if prof is not WORLD[prop]:
+            mix = r.choice(["both", "builtin"])
+            adv["valid_plugs_only"] = True
+            adv["kinds"] = ["DispatchStation", "DispatchStation", "Idle", "ChargeStation", "Reposition"]
         rs["step_recorder"] = True
         rs["buggify"] = r.random() < 0.4
         rs["p_ext"] = r.choice([0.0, 0.1])
@@ -205,6 +214,9 @@ def make_plan(prop, seed):
         rs["generators"] = []
     elif mix == "default":
         rs["generators"] = None
+    if prop == "C16" and prof is not WORLD[prop] and r.random() < 0.7:
+        # a user-written manager built on HIVE's station-ranking helper goes first, so that it ranks from a fresh start in every step
+        rs["generators"] = ["ranker"] + [g for g in rs["generators"] if g != "ChargingFleetManager" or r.random() < 0.5]
     if prop == "C15" and rs["generators"] is not None and r.random() < 0.6:
         # a stateful generator in HIVE's own functional style (state carried in the returned generator)
         rs["generators"] = rs["generators"] + ["ticker"]
